@@ -28,7 +28,7 @@ IDS = [None, ("A1", "A1"), ("prod_2x", "prod_2x"), ("ABCDEFGHIJKLMNOP", "ABCDEFG
 def bounds(tier):
     return dict(enzymes=["BsaI", "BbsI", "FokI", "BspD6I"] if tier == "quick" else "all enzyme geometries", k=[1, 2, 3], schemes=[0, 1],
                 ids=[list(i) if i else "default" for i in IDS], variants=["plain", "annotated", "rotated", "with-unused-module"],
-                two_level=["cidar"] if tier == "quick" else ["cidar", "ecoflex", "moclo"])
+                two_level=["cidar", "ecoflex", "moclo"], two_level_entries=[1, 2, 3], cassette_rotations_before_reuse=[0, 3, "n/2"])
 
 
 def goals(tier):
@@ -175,7 +175,7 @@ def units(tier):
     for enz in enzs:
         for k in (1, 2, 3):
             us.append(("single", (enz, k)))
-    for kit in (["cidar"] if tier == "quick" else ["cidar", "ecoflex", "moclo"]):
+    for kit in ["cidar", "ecoflex", "moclo"]:
         us.append(("two-level", kit))
     return us
 
@@ -204,10 +204,11 @@ def run_unit(unit, st, tier):
     else:
         kit = arg
         for n_entries in (1, 2, 3):
-            scn = dict(two_level=kit, entries=n_entries)
-            run_two_level(st, scn)
-            st.scenario("two-level", None, calls=4)
-            st.nontrivial += 1
+            for rot in (0, 3, "half"):
+                scn = dict(two_level=kit, entries=n_entries, cassette_rotation=rot)
+                run_two_level(st, scn)
+                st.scenario("two-level", None, calls=4)
+                st.nontrivial += 1
         st.sample(dict(two_level=kit, entries=2))
 
 
@@ -217,7 +218,7 @@ def run_two_level(st, scn):
         pass
     from ..engine import Stats
     tmp = Stats(ID)
-    o = c11.two_level(tmp, scn["two_level"], scn["entries"], scn)
+    o = c11.two_level(tmp, scn["two_level"], scn["entries"], scn, cassette_rotation=scn.get("cassette_rotation", 0))
     if o is None:
         st.violation("two-level", "two-level-assembly-did-not-complete", scn, "device product", sorted(tmp.violations))
         return
@@ -229,19 +230,31 @@ def run_two_level(st, scn):
         st.violation("two-level", "inner-provenance-features-lost", scn, "inherited source features naming the entries", [])
     # the inputs of THIS assembly: the two cassettes and the device vector; recover their strings from the product's own provenance
     # (the cassette records are not kept by c11.two_level, so rebuild them deterministically)
-    tmp2 = Stats(ID)
-    inputs = rebuild_inputs(scn)
+    inputs, level1 = rebuild_inputs(scn, with_level1=True)
     check_product(st, dict(scn, retained_fragments=3), prod, inputs, "device", "device", ["cas0", "cas1"], "dv")
     # nesting: every inner provenance feature lies inside exactly one outer one
     outer = [(int(f.location.start), int(f.location.end)) for f in prod.features if asm.is_generated_source(f) and asm.qual1(f, "plasmid") in inputs]
+    seq = str(prod.seq).upper()
+    named = set()
     for f in inner:
         a, b = int(f.location.start), int(f.location.end)
         if sum(1 for (x, y) in outer if x <= a and b <= y) != 1:
             st.violation("two-level", "inner-provenance-feature-not-nested-in-one-outer-feature", scn, outer, [a, b])
             break
+        pid = asm.qual1(f, "plasmid")
+        named.add(pid)
+        src = level1.get(pid)
+        if src is None:
+            st.violation("two-level", "inner-provenance-feature-names-an-unknown-plasmid", scn, sorted(level1), pid)
+            break
+        if seq[a:b] not in (src + src).upper():
+            st.violation("two-level", "inner-provenance-text-not-in-the-plasmid-it-names", scn, pid, [a, b, seq[a:b][:60]])
+            break
+    # (the cassette vectors' own provenance features overlap the stretch discarded at the device level and are rightly dropped,
+    #  so the inner features are only required to name level-1 plasmids and to be faithful, not to name all of them)
 
 
-def rebuild_inputs(scn):
+def rebuild_inputs(scn, with_level1=False):
     """strings of the cassettes and the device vector of c11.two_level (same deterministic construction)"""
     kit, n_entries = scn["two_level"], scn["entries"]
     d = c11.TWO_LEVEL[kit]
@@ -249,6 +262,7 @@ def rebuild_inputs(scn):
     outer = kitgen.OUTER_WORDS
     inner = kitgen.CHAIN_WORDS
     out = {}
+    level1 = {}
     for ci in range(2):
         if d["outer"] == "same":
             down, up = outer[ci], outer[ci + 1]
@@ -262,6 +276,8 @@ def rebuild_inputs(scn):
         for i in range(n_entries):
             body = gen.word(ci + i, 3 + 5 * i + 11 * ci, 3 + i + ci, kitgen.ALL_SITES)
             mods.append(kitgen.build_module(E, chain[i], chain[i + 1], body, variant=ci * 3 + i))
+            level1["e%d%d" % (ci, i)] = mods[-1]
+        level1["cv%d" % ci] = cv
         gg = rm.golden_gate(cv, mods, gen.geometry_of(CV.cutter))
         out["cas%d" % ci] = gg[1]
     dv = kitgen.build_vector(DV, outer[0], outer[2], fill=1, ph_len=6, variant=2) if DV.structure != gen.generic_classes("BbsI")[1].structure else None
@@ -270,6 +286,8 @@ def rebuild_inputs(scn):
         dv = gen.mk_vector(g2, outer[2], outer[0], gen.word(1, 60, 6, kitgen.ALL_SITES), gen.word(0, 40, 4, kitgen.ALL_SITES),
                            x=gen.word(0, 29, g2.off, kitgen.ALL_SITES), y=gen.word(0, 41, g2.off, kitgen.ALL_SITES))
     out["dv"] = dv
+    if with_level1:
+        return out, level1
     return out
 
 
